@@ -223,6 +223,29 @@ class World(object):
                     return 'the caller\'s parser object parses differently after %s.modelcheck used it' % checker
             except Exception as e:
                 return 'the caller\'s parser object is broken after %s.modelcheck used it: %s' % (checker, e)
+        if as_text and 'parser' in kw and outcome[0] == 'set':
+            # the caller parses the same text with ITS parser and edits the formula object it got, in
+            # place (documented wrap_subformulas); the text and the parser are what they were, so the
+            # same call must answer as before
+            try:
+                g = kw['parser'](arg)
+                kids = list(g.subformulas())
+                if kids and hasattr(kids[0], 'subformulas'):
+                    Lg = fm.lang(fm.module_lang(g) or checker)
+                    g.wrap_subformulas([Lg.Bool(False) for _ in kids], Lg.Formula)
+                    self.flags.add('caller edited a formula object it got from its own parser')
+            except Exception:
+                pass                      # an edit the library refuses is not this property's business
+            try:
+                with core.quiet():
+                    res2 = L.modelcheck(target, arg, **kw)
+                again = ('set', frozenset(res2)) if isinstance(res2, (set, frozenset)) else ('other', repr(type(res2)))
+            except Exception as e:
+                again = ('exc', type(e).__name__)
+            if again != outcome:
+                return ('%s.modelcheck(structure #%d, %r, parser=<the caller\'s parser>) answered %s, and %s after the caller '
+                        'parsed the same text itself and edited ITS formula object in place'
+                        % (checker, i, arg, show(outcome), show(again)))
         # the same query in a process without history (fresh fork of a pristine interpreter)
         nm = graphs.NAMINGS[naming]
         back = dict((nm(s), s) for s in range(K['n']))
